@@ -139,6 +139,26 @@ def idiom_terms(v, spelling):
     return out
 
 
+def ratio_unit(v, rng):
+    """A unit whose base dimensions cancel completely although its scale is not one: two
+    different words of one dimension with opposite powers (`min/s`, `ft/in`, `acre/m^2`),
+    sometimes next to a further unit that stays. Returns (terms, same-dimension-class words)."""
+    classes = [ws for ws in v.by_dims.values() if len({w[2] for w in ws if not w[6]}) >= 2]
+    ws = [w for w in rng.choice(classes) if not w[6]]
+    a = rng.choice(ws)
+    b = rng.choice([w for w in ws if w[2] != a[2]])
+    p = rng.choice([1, 1, 1, 2, -1])
+    return [(a, p), (b, -p)], ws
+
+
+def ratio_like(v, rng, ws, terms):
+    """Another spelling with the same (cancelling) dimensions."""
+    p = terms[0][1]
+    a = rng.choice(ws)
+    b = rng.choice([w for w in ws if w[2] != a[2]])
+    return [(a, p), (b, -p)]
+
+
 class C02(QProp):
     """Theorems (Props/C02.lean): `Compound::factor`, `+`, `-` and the `to` step accept two non-empty proportional compounds iff the specification's base dimensions agree, whatever the spelling, otherwise `illegalOperation` / `illegalCast`; a plain number adopts the unit in either order. Correspondence: pairs of random and respelled unit expressions, cancelling idioms, plus a sweep built from the human reference table only (`1 name^p to base-SI`). End to end (Props/QuantityQuery.lean): `C02_query` — the rendered TEXT of `a + b`, `a - b`, `a to u` through lexer, parser and evaluator succeeds iff the specification's dimensions agree. Unified language (Props/UnifiedQuery.lean): `C02_query_fact` — a fact phrase ± a quantity is accepted iff the dimensions agree."""
     id = "C02"
@@ -241,6 +261,18 @@ class C03(QProp):
             else:  # scaling the input
                 e = Q.Cast(G.Paren(G.Bin("*", G.Lit(str(rng.range(2, 9))), Q.Qty(x, u1))), u2)
             items.append((e, Q.layout_q(e, rng, "canon" if i % 3 else "random"), f"random-kind{k}"))
+        # units whose dimensions cancel completely while the scale does not (`1 min/s to hr/s` is
+        # 1/60): conversions, there-and-back, and with a further unit that stays
+        for i in range(300 if tier == "quick" else 5000):
+            u1, ws = ratio_unit(v, rng)
+            u2 = ratio_like(v, rng, ws, u1)
+            if rng.chance(1, 3):
+                extra = rng.choice(v.plain_words)
+                if extra[2] not in {t[0][2] for t in u1 + u2}:
+                    u1, u2 = u1 + [(extra, 1)], u2 + [(extra, 1)]
+            x = Q.small_value(rng)
+            e = Q.Cast(Q.Qty(x, u1), u2) if i % 3 else Q.Cast(G.Paren(Q.Cast(Q.Qty(x, u1), u2)), u1)
+            items.append((e, [], "cancelling-ratio"))
         return q_cases(items)
 
 
@@ -429,6 +461,15 @@ class C13(_OffsetLaws, QProp):
                 a, b = Q.Qty("3", [(reps[i], 1)]), Q.Qty("7", [(reps[j], 1)])
                 items.append((B("*", a, b), [], "pair-mul"))
                 items.append((B("*", b, a), [], "pair-mul"))
+        # sums and differences of quantities whose units cancel completely but differ in scale
+        # (`5 min/s + 1 hr/s` is 65 min/s)
+        for _ in range(200 if tier == "quick" else 3000):
+            u1, ws = ratio_unit(v, rng)
+            u2 = ratio_like(v, rng, ws, u1)
+            a, b = Q.Qty(Q.small_value(rng), u1), Q.Qty(Q.small_value(rng), u2)
+            op = rng.choice("+-")
+            items.append((B(op, a, b), [], "cancelling-ratio"))
+            items.append((B(op, b, a), [], "cancelling-ratio"))
         n = 400 if tier == "quick" else 8000
         for _ in range(n):
             u = Q.rand_unit(v, rng, 2)
